@@ -62,12 +62,28 @@ ASSUMPTIONS = ["the scheduler is a function of the Interface view (no hidden sta
 RULE = ("scenario = 1-4 stations of mixed EVSE classes (continuous / deadband / finite), 0-8 sessions with ideal and "
         "two-stage batteries (continuous / stepwise, noise 0 / 0.5 / 2.0), back-to-back reuse, extra recompute "
         "events (also after the last departure), period in {0.5,1,5,15}, max_recompute in {None,1,2}, scripted "
-        "multi-period schedules / empty scheduler; one case per scheduler-invoked period k of the scenario + one "
+        "multi-period schedules / empty scheduler; every 5th scenario runs on the contrib StochasticNetwork (seeded "
+        "random space assignment, waiting queue, early departure; crash+resume only, implementation oracle only); "
+        "one case per scheduler-invoked period k of the scenario + one "
         "non-invoked period; non-trivial = the failure fired with at least one EV connected or an event pending; "
         "distinct by hash of (scenario, k)")
 
+import random as _random
+
+from acnportal.contrib.acnsim.network.stochastic_network import StochasticNetwork
+
 _A_CACHE = {}
 _OCC = []
+
+
+class _Stoch(StochasticNetwork):
+    def __init__(self):
+        super().__init__(early_departure=False)
+
+
+class _StochEarly(StochasticNetwork):
+    def __init__(self):
+        super().__init__(early_departure=True)
 
 
 class LogNetwork(ChargingNetwork):
@@ -154,10 +170,31 @@ def _crash_points(scn, every=False):
     return inv + other[:1]
 
 
+def _gen_stochastic(rng):
+    """StochasticNetwork (contrib): more simultaneous sessions than stations, random space assignment,
+    optional early departure.  Crash + resume only (no JSON round trip, see ASSUMPTIONS)."""
+    ns = rng.randint(1, 3)
+    stations = [{"id": f"S{i}", "kind": {"t": "cont", "min": 0, "max": 32}, "V": 208, "phase": 0} for i in range(ns)]
+    H = rng.choice([3, 5, 8])
+    sessions = []
+    for i in range(rng.randint(2, 7)):
+        a = rng.randint(0, H - 1)
+        d = rng.randint(a + 1, H)
+        sessions.append(_s(f"x{i}", rng.choice(stations)["id"], a, d, rng.choice([0.05, 0.4, 1.5, 30.0])))
+    rng.shuffle(sessions)
+    default = [[st["id"], [rng.choice([8.0, 16.0, 32.0])]] for st in stations]
+    script = [{"t": t, "sched": [[st["id"], [rng.choice([0.0, 6.0, 32.0]), 16.0]] for st in stations]}
+              for t in range(H + 1) if rng.random() < 0.3]
+    return {"stations": stations, "constraint": None, "sessions": sessions, "recomputes": [], "period": 5,
+            "max_recompute": rng.choice([None, 1, 2]), "noise": [],
+            "sched": {"type": "scripted", "default": default, "script": script},
+            "stochastic": {"seed": rng.randint(0, 10 ** 6), "early": rng.random() < 0.6}}
+
+
 def generate(rng, n, tier):
     out = []
-    for _ in range(n):
-        scn = _gen_scn(rng)
+    for i in range(n):
+        scn = _gen_stochastic(rng) if i % 5 == 4 else _gen_scn(rng)
         for k in _crash_points(scn):
             out.append({"scn": scn, "k": k})
     return out
@@ -184,8 +221,42 @@ def _sched_hist(sim):
     return [[int(t), [[st, [float(x) for x in row]] for st, row in sorted(s.items())]] for t, s in sorted(h.items())]
 
 
+def _stoch_hooks(scn, fail_at=None):
+    st = scn["stochastic"]
+    _random.seed(st["seed"])
+    return S.Hooks(fail_at=fail_at, network_cls=_StochEarly if st["early"] else _Stoch)
+
+
+def _stoch_extra(sim):
+    net = sim.network
+    return {"waiting": list(net.waiting_queue.keys()), "swaps": net.swaps, "never_charged": net.never_charged,
+            "early_unplug": net.early_unplug,
+            "stations_of": sorted([ev.session_id, ev.station_id] for ev in sim.ev_history.values())}
+
+
+def _run_stoch(scn, k):
+    """run a (k is None) or run b for a StochasticNetwork scenario"""
+    hooks = _stoch_hooks(scn, None if k is None else {k})
+    sim, ctx = S.build_sim(scn, hooks, store_schedule_history=True)
+    err = S.run_sim(sim)
+    first = None
+    if k is not None and err == "SchedulerFailed" and sim.iteration == k:
+        first = S.observe(sim, ctx, err)
+        first["stoch"] = _stoch_extra(sim)
+        err = S.run_sim(sim)
+    obs = S.observe(sim, ctx, err)
+    obs["noise_draws"] = 0
+    obs["sched_hist"] = _sched_hist(sim)
+    obs["stoch"] = _stoch_extra(sim)
+    if first is not None:
+        obs["first"] = first
+    return obs
+
+
 def _run_a(scn):
     key = C.case_hash(scn)
+    if key not in _A_CACHE and scn.get("stochastic"):
+        _A_CACHE[key] = _run_stoch(scn, None)
     if key not in _A_CACHE:
         if len(_A_CACHE) > 64:
             _A_CACHE.clear()
@@ -395,6 +466,8 @@ def _run_json(scn, k, store_hist, net_cls, want_store):
 def run_impl(case):
     scn, k = case["scn"], int(case["k"])
     a = _run_a(scn)
+    if scn.get("stochastic"):
+        return {"a": a, "b": _run_stoch(scn, k), "c": None, "d": None}
     b = S.run_impl_resume(scn, S.Hooks(fail_at={k}))
     c = _run_json(scn, k, False, ChargingNetwork, True)
     d = _run_json(scn, k, True, LogNetwork, False)
@@ -406,6 +479,8 @@ def run_impl(case):
 
 def model_request(case, obs=None):
     scn, k = case["scn"], int(case["k"])
+    if scn.get("stochastic"):
+        return None          # random space assignment is C19's model; here: oracle on the implementation
     req = {"sim": S.model_request(scn, fail_at={k}, resume=True), "reg": None}
     if obs and isinstance(obs.get("c"), dict) and obs["c"].get("store"):
         st = obs["c"]["store"]
@@ -418,7 +493,7 @@ def compare(case, obs, model):
     if model.get("sim") is not None:
         diffs.extend(S.compare(case["scn"], obs["b"], model["sim"]))
     reg = model.get("reg")
-    st = obs["c"].get("store")
+    st = obs["c"].get("store") if obs.get("c") else None
     if st is not None:
         if reg is None:
             diffs.append("registry: no model answer")
@@ -507,11 +582,15 @@ def oracle(case, obs):
     if fired != will_fire:
         fails.append({"kind": "crash_point", "detail": f"scheduler invoked at {a['invoked']}, failure at {k} fired={fired}"})
     db = _same(a, b, "resumed", k, "dup" if fired else None)
+    if scn.get("stochastic") and a.get("stoch") != b.get("stoch"):
+        db.append(f"stochastic network: {a.get('stoch')} vs {b.get('stoch')}")
     if db:
         noop = fired and b["iter"] == k and a["iter"] > k
         fails.append({"kind": "resume_last_period_noop" if noop else "resume_differs",
                       "detail": f"crash at {k}, run() again: " + "; ".join(db[:4])})
     for tag, r, kind in (("json", c, "json_resume_differs"), ("json+history", d, "json_history_resume_differs")):
+        if r is None:
+            continue
         if r["fired"] != will_fire:
             fails.append({"kind": "crash_point", "detail": f"{tag}: failure at {k} fired={r['fired']}"})
             continue
@@ -529,7 +608,7 @@ def oracle(case, obs):
                 fails.append({"kind": "rejson_differs", "detail": f"{tag}, crash at {k}: to_json of the loaded simulator: " + "; ".join(r["rejson"][:3])})
             if r["same_object"]:
                 fails.append({"kind": "sharing_lost", "detail": "from_json returned the original object"})
-    if d["fired"] and d["obs"].get("sched_hist") != a.get("sched_hist"):
+    if d is not None and d["fired"] and d["obs"].get("sched_hist") != a.get("sched_hist"):
         fails.append({"kind": "json_history_resume_differs",
                       "detail": f"crash at {k}: schedule_history {str(d['obs'].get('sched_hist'))[:300]} vs {str(a.get('sched_hist'))[:300]}"})
     return fails
@@ -568,7 +647,11 @@ def features(case, obs):
             f.append("crash_on_max_recompute_only")
         if any(len(r) > k + 1 and any(x != 0 for x in r[k + 1:]) for r in first["pilots"]):
             f.append("multi_period_schedule_in_flight")
-    if c.get("fired"):
+    if scn.get("stochastic"):
+        f.append("stochastic_network" + ("_early" if scn["stochastic"]["early"] else ""))
+        if fired and b["first"].get("stoch", {}).get("waiting"):
+            f.append("stochastic_waiting_at_crash")
+    if c and c.get("fired"):
         f.append("objects=" + ("<10" if c["n_objects"] < 10 else "10-29" if c["n_objects"] < 30 else "30+"))
         f.append("shared_triples=" + str(min(3, c["n_shared"])))
     kinds = sorted({st["kind"]["t"] for st in scn["stations"]})
